@@ -375,7 +375,7 @@ theorem ext_negVals (s : State) (v : Val) : Ext s (negVals s v).2 := by
   · exact ext_stamps _ _
   · exact ext_freshArr _ _ _
 
-theorem ext_negNR (s : State) (i : Nat) : Ext s (negNR s i).2 := by
+theorem ext_negNR (s : State) (i : Nat) (u d : Bool) : Ext s (negNR s i u d).2 := by
   unfold negNR
   split
   · dsimp only
@@ -385,12 +385,12 @@ theorem ext_negNR (s : State) (i : Nat) : Ext s (negNR s i).2 := by
   · exact Ext.refl _
 
 theorem ext_negStep (c : Nat) (s : State) (kd : Nat × Nat) : Ext s (negStep c s kd) :=
-  (ext_negNR _ _).trans (ext_insertDeriv _ _ _ _ _)
+  (ext_negNR _ _ _ _).trans (ext_insertDeriv _ _ _ _ _)
 
-theorem ext_neg (s : State) (i : Nat) : Ext s (neg s i).2 := by
+theorem ext_neg (s : State) (i : Nat) (u d : Bool) : Ext s (neg s i u d).2 := by
   unfold neg
   split
-  · exact (ext_negNR _ _).trans (ext_foldl _ (ext_negStep _) _ _)
+  · exact (ext_negNR _ _ _ _).trans (ext_foldl _ (ext_negStep _) _ _)
   · exact Ext.refl _
 
 theorem ext_decode (s : State) (o : Obj) (mc : MaskClass) : Ext s (decode s o mc).2 := by
@@ -569,7 +569,7 @@ theorem ext_step (s : State) (op : Op) : Ext s (step s op).1 := by
   case wod => split <;> first | exact ext_wodOf _ _ | exact Ext.refl _
   case clone => split <;> first | exact ext_clone _ _ _ | exact Ext.refl _
   case copy => split <;> first | exact ext_copy _ _ _ _ | exact Ext.refl _
-  case neg => split <;> first | exact ext_neg _ _ | exact Ext.refl _
+  case neg => split <;> first | exact ext_neg _ _ _ _ | exact Ext.refl _
   case pickle => split <;> first | exact ext_unpickle _ _ _ _ | exact Ext.refl _
   case getDeriv => split <;> (try split) <;> exact Ext.refl _
   case rawRef => split <;> first | exact Ext.of_same rfl rfl | exact Ext.refl _
